@@ -22,7 +22,7 @@ Extraction "svmodel.ml"
   yaml_quoted yaml_scalar yaml_unquote read_scalar
   expectation_line rule_matches update_md outside has_command tok_raw trim_start
   format_duration parse_duration one_liner read_one_liner gen_cram_doc gen_md_doc gen_cram_docs gen_md_docs gen_cram_docs_g gen_md_docs_g gen_cram_doc_g gen_md_doc_g guarded_line guarded_lines written_line strip_sgr sgr_text ydiff ywith_defaults gen_config_suffix regex_prepare regex_effective cleanup compile_script
-  persisted_names excluded split_outputs ideal parse_divider parse_salted read_env env_text
+  persisted_names excluded split_outputs finished script_verdict first_code ideal parse_divider parse_salted read_env env_text
   dir_run_docs dir_processed next_names scrut_test_value env_always env_cram_compat
   render_pretty render_diff structured result_ok utf8_lossy highlight dec
   replace_crlf crlf_spec render_output recorded render around single_at expr_placeholder replace_all.
